@@ -167,21 +167,12 @@ Proof.
   destruct (tokenize_go_spec (S (length b)) 1 b ltac:(lia)) as (_ & _ & _ & H). apply H. lia.
 Qed.
 
-(* in a run of alphanumeric bytes, or a run without any, the optional '+' of lexical_core's u32
-   parser never matters: the token parses as a number exactly when it is all digits *)
+(* the repaired parse_u32 is the plain decimal value of a non-empty token, whatever the token *)
+Theorem parse_u32_nonempty : forall t, t <> [] -> parse_u32 t = digits_val t 0.
+Proof. intros t Hne. destruct t as [|b r]; [contradiction|reflexivity]. Qed.
+
 Theorem parse_u32_homog : forall t, homog t -> t <> [] -> parse_u32 t = digits_val t 0.
-Proof.
-  intros t Hh Hne. destruct t as [|b r]; [contradiction|]. unfold parse_u32.
-  destruct (N.eqb_spec b 43) as [E|E]; [|reflexivity].
-  subst b. destruct Hh as [Ha|Hn].
-  - inversion Ha as [|x y Hx Hy]; subst. vm_compute in Hx. discriminate Hx.
-  - inversion Hn as [|x y Hx Hy]; subst.
-    change (digits_val (43 :: r) 0) with (@None N).
-    destruct r as [|c r']; [reflexivity|].
-    inversion Hy as [|x' y' Hc Hy']; subst. unfold nm_is_alnum in Hc.
-    apply orb_false_iff in Hc. destruct Hc as (Hc & _). apply orb_false_iff in Hc. destruct Hc as (Hc & _).
-    cbn [digits_val]. rewrite Hc. reflexivity.
-Qed.
+Proof. intros t _ Hne. apply parse_u32_nonempty. exact Hne. Qed.
 
 Print Assumptions names_entropy_roundtrip.
 Print Assumptions parse_u32_homog.
